@@ -177,7 +177,10 @@ type workerOut struct {
 func runWorker(bin string, a Args, timeout time.Duration) workerOut {
 	raw, _ := json.Marshal(a)
 	cmd := exec.Command(bin, "-test.run", "TestSim", "-test.timeout", "0")
-	cmd.Env = append(goEnv(), "VERIF_WORKER_ARGS="+string(raw), "GOMAXPROCS="+gomaxprocsFor(a))
+	cmd.Env = append(goEnv(), "VERIF_WORKER_ARGS="+string(raw), "GOMAXPROCS="+gomaxprocsFor(a), "GORACE=halt_on_error=1")
+	if strings.Contains(bin, ".race.") && a.GMP == "" {
+		cmd.Env = append(cmd.Env, "GOMAXPROCS=4")
+	}
 	stdout, _ := cmd.StdoutPipe()
 	var errb bytes.Buffer
 	cmd.Stderr = &errb
